@@ -2,6 +2,7 @@ package main
 
 import (
 	"fmt"
+	"math"
 
 	"math/big"
 	"strings"
@@ -132,6 +133,56 @@ func c04Tree(c *Ctx, w WLCase, lim explore.Limits, prefix string, sample bool) {
 	}
 }
 
+// coinStats: long passwords under the random scheme on real OS randomness. Trees cannot reach these lengths,
+// so this is a counting monitor with a threshold of 8 standard deviations: a fair, independent coin per
+// position is flagged with probability below 1e-13 per run; a coin that is heads 53% of the time at some
+// position is flagged with near certainty.
+func coinStats(c *Ctx, prefix string, L, N int) {
+	wl, err := spg.NewWordList([]string{"heads", "tails"})
+	if err != nil {
+		return
+	}
+	rec := spg.NewWLRecipe(L, wl)
+	rec.Capitalize = spg.CSRandom
+	caps := make([]int, L)
+	words := make([]int, L)
+	for i := 0; i < N; i++ {
+		g := runGen(rec, nil)
+		if g.Pw == nil {
+			c.Violate(prefix+"generation-failed", fmt.Sprintf("random scheme, Length %d: err=%v panic=%v", L, g.Err, g.Panic), nil)
+			return
+		}
+		for j, a := range g.Pw.Tokens().Atoms() {
+			if j >= L {
+				break
+			}
+			if a == "Heads" || a == "Tails" {
+				caps[j]++
+			}
+			if a == "heads" || a == "Heads" {
+				words[j]++
+			}
+		}
+	}
+	c.Exec(N)
+	c.Count("coin_statistics_generations", int64(N))
+	sigma := 0.5 / math.Sqrt(float64(N))
+	for j := 0; j < L; j++ {
+		f := float64(caps[j]) / float64(N)
+		if math.Abs(f-0.5) > 8*sigma {
+			c.Violate(prefix+"coin-not-fair", fmt.Sprintf("random scheme, Length %d: position %d is capitalised in %d of %d passwords (%.4f); a fair coin stays within %.4f of 0.5 (8 sigma)", L, j, caps[j], N, f, 8*sigma),
+				map[string]interface{}{"length": L, "position": j, "capitalised": caps[j], "samples": N})
+			return
+		}
+		fw := float64(words[j]) / float64(N)
+		if math.Abs(fw-0.5) > 8*sigma {
+			c.Violate(prefix+"word-pick-not-uniform", fmt.Sprintf("two-word list, Length %d: position %d holds the first word in %d of %d passwords (%.4f)", L, j, words[j], N, fw), nil)
+			return
+		}
+	}
+	c.Distinct("nontrivial", fmt.Sprintf("coinstats|%d", L))
+}
+
 // c04Slice: large lists. With all other draws pinned, varying one word draw
 // over all size indices must give size distinct passwords, each atom a kept
 // word; the one scheme over all L positions; the random scheme over all 2^L
@@ -172,6 +223,9 @@ func c04Slice(c *Ctx, k int) {
 	size := len(kept)
 	L := c.R.Range(2, 5)
 	scheme := schemes[k%len(schemes)]
+	if k%4 == 3 {
+		coinStats(c, "", []int{32, 40, 64, 70}[(k/4)%4], 40000)
+	}
 	if k%4 == 3 { // long passwords over a short list: every position / coin far beyond any machine-word width
 		words = words[:20]
 		wl, _ = spg.NewWordList(words)
